@@ -49,6 +49,7 @@ ASSIGN = {
     "tiny": S.scaled(S.val_pow2(0), 2.0 ** -70),
     "huge": S.scaled(S.val_base(4, 1), 2.0 ** 80),
     "u8": S.val_base(3, 80),  # stored as uint8; cumulative sums exceed 255
+    "int": S.val_base(4, 1),  # stored as int64
 }
 PATTERNS_Q = ("all2", "2323", "1213")
 PATTERNS_T = ("all2", "all3", "2323", "1213", "3122")
@@ -114,7 +115,7 @@ def run_case(pattern, lx, prov, universe, assign, req):
     items = S.items_for(pattern)
     lx = tuple(lx)
     fx = ASSIGN[assign](lx, items)
-    X = S.flodym_array(lx, items, fx, "Cu8" if assign == "u8" else prov)
+    X = S.flodym_array(lx, items, fx, "Cu8" if assign == "u8" else ("Cint" if assign == "int" else prov))
     mx = R.build(lx, items, fx)
     op, arg, style = req
     case = dict(pattern=pattern, lx="".join(lx), prov=prov, universe=universe, assign=assign, req=list(req))
@@ -251,7 +252,7 @@ def run_case(pattern, lx, prov, universe, assign, req):
 def assigns_for(req, tier):
     op = req[0]
     if op in ("shares",):
-        return ("pow2", "base", "signed", "tiny", "huge")
+        return ("pow2", "base", "signed", "tiny", "huge", "int")
     if op.endswith("unknown") or op == "identity":
         return ("base",)
     if tier == "quick":
